@@ -123,7 +123,7 @@ def run(tier, seed):
     seen = {}
     for seg, idx in rejected:
         ev = seg[idx]
-        keys = [["bhl", "hhl", "lhl", "lang", "qlang", "lmode", "bibtex", "title", "author", "custom", "css", "date"][k - 1] for k in ev["m"]]
+        keys = [["bhl", "hhl", "lhl", "lang", "qlang", "lmode", "bibtex", "title", "author", "custom", "css", "date", "mmdfooternote", "mmdheaderstyle"][k - 1] for k in ev["m"]]
         if ev["null"]: what = "no-result"
         elif ev["occurs"] < 1: what = "snippet-not-in-complete"
         elif ev["full_len"] <= ev["snip_len"]: what = "complete-adds-nothing"
